@@ -291,9 +291,9 @@ func badRowsFor(file string, k int) []badRow {
 }
 
 var templateRows = map[string][]string{
-	"agency.txt": {"AGX", "Agency X", "http://x", "UTC", "en", "", "", ""},
-	"routes.txt": {"RX", "AG0", "x", "X", "", "3", "", "FFFFFF", "000000", "1", "1", "1"},
-	"stops.txt":  {"SX", "", "X", "", "", "1.0", "2.0", "", "0", "", "", "0", ""},
+	"agency.txt":    {"AGX", "Agency X", "http://x", "UTC", "en", "", "", ""},
+	"routes.txt":    {"RX", "AG0", "x", "X", "", "3", "", "FFFFFF", "000000", "1", "1", "1"},
+	"stops.txt":     {"SX", "", "X", "", "", "1.0", "2.0", "", "0", "", "", "0", ""},
 	"transfers.txt": {"S0", "S1", "0", "60"}, "calendar.txt": {"SVX", "1", "1", "1", "1", "1", "0", "0", "20230101", "20231231"},
 	"calendar_dates.txt": {"SV0", "20230704", "1"}, "shapes.txt": {"SH0", "1.0", "2.0", "50", ""},
 	"trips.txt": {"R0", "SV0", "TX", "", "", "0", "", "", "0", "0"}, "frequencies.txt": {"T0", "06:00:00", "07:00:00", "600", "0"},
